@@ -88,6 +88,15 @@ impl<T, E> Observer<T, E> for ObservableFutureObserver<T, E> {
 
   fn error(mut self, err: E) {
     send_observable_value(&mut self, Err(err));
+    // the observable has terminated: resolve the future with the error (or
+    // `MultipleValues` if items came before it) instead of leaving it pending.
+    if let Some(last_value) = self.last_value.take() {
+      self
+        .sender
+        .unbounded_send(last_value)
+        .expect("failed to send observable error");
+    }
+    self.sender.close_channel();
   }
 
   fn complete(mut self) {
